@@ -36,7 +36,7 @@ func runC13(w *World, r *Report) {
 		return rule
 	}
 	c04NullDeletes(w, r)
-	if ctfk := w.Fn("pkg/chart/v2/util", "coalesceTablesFullKey"); ctfk != nil {
+	if ctfk := overlayFn(w); ctfk != nil {
 		c04MergeBody(w, r, ctfk, 1, 2, "coalesceTablesFullKey")
 		c04ReturnsDest(w, r, ctfk)
 	}
